@@ -100,6 +100,40 @@ def stress_child(case):
     return out
 
 
+def proof_race_cases(tier, seed):
+    '''Proof requests in flight while the very block / checkpoint they name is being undone.
+
+    tx: a block of >= 200 txs at the tip, tx proofs for it sent, the block replaced by another big block while the tx-hash
+    read is held; afterwards every proof for that height must verify against the replacement (per-height caches).
+    hdr: header proofs with the checkpoint at the tip, sent just before a forced or natural reorg; the header read is held
+    at its start so that it looks at the index while blocks are undone and the (slow) daemon has not delivered the new ones.'''
+    rng = random.Random(seed * 7919 + 11)
+    cases = []
+    for j in range(24 if tier == 'quick' else 300):
+        script = [('hsub', 0), ('sub', 0, 0), ('sleep', 6)]
+        if j % 3 == 0:
+            fam = 'tx'
+            for _ in range(rng.randrange(1, 3)):
+                script += [('big', rng.choice((210, 240, 300))), ('sleep', 12)]
+                script += [('qat', rng.choice(('get_merkle', 'id_from_pos_merkle', 'tsc')), 'big') for _q in range(rng.randrange(2, 5))]
+                script += [('sleep', rng.choice((0, 0.05))), ('reorg_big', rng.randrange(1, 3), rng.choice((205, 230))), ('sleep', 40)]
+                script += [('qat', rng.choice(('get_merkle', 'id_from_pos_merkle', 'tsc')), 'big') for _q in range(2)]
+                script += [('sleep', 12)]
+        else:
+            fam = 'hdr'
+            for _ in range(rng.randrange(1, 4)):
+                script += [('w', rng.choice(('mine_all', 'mine2', 'add'))), ('sleep', 12)]
+                script += [('qat', rng.choice(('header_proof', 'header_proof', 'headers_proof')), 'tipcp') for _q in range(rng.randrange(2, 5))]
+                script += [('sleep', rng.choice((0, 0.05))), rng.choice((('rpc_reorg', rng.randrange(1, 4)), ('w', 'reorg'))), ('sleep', 45)]
+                script += [('qat', 'header_proof', 'tipcp'), ('sleep', 6)]
+        cases.append({'seed': rng.randrange(1 << 30), 'nclients': 1, 'nscripts': 3, 'judge': ['C11'], 'script': script, 'family': fam,
+                      'flushkind': 'none', 'flushvec': None, 'policy': rng.choice(('random', 'lazy', 'eager')), 'p': 0.3, 'latency': None,
+                      'latency_by_method': ({'rest/block': (4, 8, 12), 'getblockhash': (2, 5)} if fam == 'hdr' else None),
+                      'txindex': j % 4 < 2, 'prefetch': 100, 'n0': rng.choice((24, 36)), 'colls': 0, 'reorg_limit': rng.choice((4, 6)),
+                      'longpark': 0.8, 'longpark_start_under': (('fs_block_hashes',) if fam == 'hdr' else None)})
+    return cases
+
+
 def run(tier, seed, replay=None):
     rep = Report(PID, tier, seed, 'exploration')
     if replay:
@@ -114,13 +148,15 @@ def run(tier, seed, replay=None):
         cse['n0'] = rng.choice((20, 30, 44))                    # header cache with several segments
         cse['reorg_limit'] = rng.choice((3, 5))
     rep.absorb(run_cases(child, cases, watchdog=900), 'scenario')
+    rep.absorb(run_cases(child, proof_race_cases(tier, seed), watchdog=900), 'proof race')
     scases = [{'seed': seed * 977 + i, 'nseq': 30 if tier == 'quick' else 400, 'rounds': 12, 'p_reorg': (0.0, 0.3, 0.6)[i % 3]}
               for i in range(32)]
     rep.absorb(run_cases(stress_child, scases, watchdog=900), 'cache stress')
     c = rep.counters
     for name, minimum in {'quiescent_points_judged': 80, 'proofs_verified': 5000, 'out_of_range_requests_judged': 300,
                           'step:reorg': 20, 'step:forced_reorg': 15, 'merkle_cache_hits': 10, 'query:header_proof': 30, 'concurrent_queries_judged': 20000, 'queries_overlapping_a_truncation': 300,
-                          'query:tsc': 30}.items():
+                          'query:tsc': 30, 'step:big_block_replaced_by_big_block': 5,
+                          'header_proofs_refused_by_short_read_guard': 2, 'jobs_held_at_start': 40}.items():
         rep.floor(name, c[name], minimum)
     return rep.finish(
         rule='the C07 scenarios (chains of 20-44 blocks, a quarter with a 200-420 tx block so that the cached per-block path runs) with a '
@@ -131,5 +167,9 @@ def run(tier, seed, replay=None):
              'heights x three positions x three proof kinds, four checkpoints per height, four out-of-range requests) must verify against '
              'the current chain exactly. Plus a direct stress of the real MerkleCache: 2-6 concurrent branch_and_root calls whose source reads '
              'really suspend, with truncations (source rewritten) in flight; each answer must match a source version of its window. '
+             'Proof-race family: a >= 200-tx block at the tip replaced by another big block while tx proofs for it are in flight '
+             '(tx-hash read held, result delivered after the undo), and header proofs with the checkpoint at the tip sent just before '
+             'a forced / natural reorg with the merkle-cache extension read held at its start, so that it looks at the index while '
+             'blocks are undone and a slow daemon has not yet delivered the replacements. '
              'distinct = (script, schedule hash) + stress batches',
         assumptions=['proofs issued while a reorg is in flight are accepted against any chain version the daemon served'])
